@@ -9,26 +9,46 @@ from ..core import Case
 
 ID = 'C19'
 MANIFEST = {
-    'text': ('Coq theorems (unbounded, closed): C19_quilt_extract_faithful -- the implementation model of Quilt._extract '
-             '(Boolean mask over the axis map, adjacent-duplicate-filtered bus keys, per-member sub-mask through HLoc, '
-             'per-member mask selection, relabel, reduction, concatenation) equals Frame selection on the single '
-             'concatenated Frame for every Bus layout, both label modes, every opposite key and every order-preserving '
-             'non-empty key; C19_seg_take_faithful (its 1-D heart over arbitrary label/item types); '
+    'text': ('Coq theorems (unbounded, closed under the global context). QUILT: C19_quilt_extract_faithful / C19_quilt_extract_block_faithful -- the implementation '
+             'model of Quilt._extract (Boolean mask over the axis map, adjacent-duplicate-filtered bus keys, per-member sub-mask through HLoc, per-member mask '
+             'selection, relabel_level_add, dimension reduction, concatenation; AxisMap construction failures included) equals Frame selection on the single '
+             'concatenated Frame for every Bus layout, both label modes, every opposite-axis key and every key that visits the members one after the other with '
+             'ascending positions inside each (int, ascending slice, mask, ascending list, member-wise ascending list), empty selections excluded; '
+             'C19_seg_take_faithful (the 1-D heart over arbitrary label/item types); C19_quilt_extract_array_faithful (Quilt._extract_array); '
+             'C19_quilt_loc_faithful (loc / __getitem__); C19_quilt_shape_labels (labels, shape, uniqueness of retained labels); C19_quilt_iter_faithful '
+             '(iter_array/series/tuple[_items], items along the Quilt axis); C19_quilt_window_faithful (iter_window[_array][_items], all window parameters); '
              'C19_quilt_no_full_build (a selection asks the Bus only for members owning an addressed position). '
-             'API-level correspondence of M and S with sf.Quilt through iloc on both axes.'),
-    'note': ('trusted: Coq kernel, the hand-written models SF/Quilt.v (tied to the code only by the correspondence cases), '
-             'NumPy indexing semantics as modelled by key_positions, harness.'),
-    'technique': 'refinement proof M=S over segmented sequences + differential correspondence',
+             'BATCH: C19_batch_pointwise (a chain of lazily wrapped generators of any depth, with plain and exception-silencing operations, yields and ends '
+             'exactly as applying the chain to each label\'s Frame in turn), C19_batch_pool_pointwise (max_workers path: same results, raises iff some label raises), '
+             'C19_batch_pointwise_total, C19_batch_export (to_frame concatenates exactly those results). '
+             'Refuted/C19.v: six witnesses, one per known finding. '
+             'Correspondence (API level, public calls only): Quilt iloc / loc / __getitem__ on both axes, labels/shape/keys, to_frame/values/head/tail, iterators, '
+             'windows (Frame and array), store-backed Buses with max_persist None/1/2/k with store reads logged; Batch chains of depth 1..3 over 45 operations '
+             '(selection, operators, reductions, NA handling, function application, apply_except) sequential and thread-pool, to_frame both axes, to_bus; '
+             'every Quilt answer is also cross-checked on the implementation against Frame.from_concat[_items](bus frames).<op>.'),
+    'note': ('trusted: Coq kernel; the hand-written models SF/Quilt.v and SF/BatchView.v (tied to the code only by the correspondence cases of each run; no translated kernel); '
+             'NumPy indexing semantics as modelled by key_positions; label -> position translation modelled by plain lookup (C02/C05 own it); harness. '
+             'Lines abstraction: the model is parametric in what a line is (rows for axis 0, columns for axis 1), the harness transposes. '
+             'Batch operations are parameters of the theorems; in the correspondence they are instantiated by the graph of the real Frame/Series methods on the inputs '
+             'reached in the case (so the Batch plumbing is modelled, the methods are not). Partial: dtype resolution of mixed-dtype members is only cross-checked on the '
+             'implementation (Python equality); Batch.to_frame with results that need a union/fill is not modelled; process pools (use_threads=False) and store formats other '
+             'than zip-pickle are not run; Quilt has no iter_element in this version. The name of a Frame result is not part of S (M models it).'),
+    'technique': 'refinement proof M=S over segmented sequences / generator chains + differential correspondence',
 }
 PROPERTY_FILES = ['Properties/C19.v']
 REFUTED_FILES = ['Refuted/C19.v']
 MODEL_FILES = ['SF/Quilt.v', 'SF/BatchView.v']
 IMPORTS = 'Require Import SF.Prelude SF.PySlice SF.Value SF.Quilt SF.BatchView.'
-RULE = ('Buses of 1..4 member Frames (sizes 0..3 lines each) over a shared opposite axis, both Quilt axes, retain_labels on/off; '
-        'selection keys = every int, slice, Boolean mask and short list over the axis (quick: sampled); '
-        'a case is non-trivial when the key addresses lines of at least two members or reduces a dimension; distinct = distinct (bus, key)')
+RULE = ('Quilt: Buses of 1..4 member Frames (0..3 lines each, distinct int64 cells, random block layouts) over a shared opposite axis, both Quilt axes, retain_labels on/off, '
+        'member labels str/int, shared across members when retained; keys: every int in [-n-1,n], every slice with bounds in None,-n-1..n+1 and step None,1,2,-1,-2, every Boolean '
+        'mask, every ordered list of <= 3 positions, malformed keys (out of range, repeated, wrong mask length); opposite key all/int/list/slice/mask (quick tier: stratified sample). '
+        'Label keys: single, ordered lists, inclusive ranges, HLoc[member], absent labels. Windows: size x step x window_sized x label_shift x start_shift x size_increment grid. '
+        'Store: zip-pickle Bus with max_persist None/1/2/k. Batch: 5 sets of Frames (ragged, aligned, float with NaN, single, int labels), every operation alone, sampled pairs and triples. '
+        'non-trivial = the key addresses >= 2 members or reduces a dimension / the Batch holds >= 2 Frames; distinct = distinct (bus layout, key) or (frames, chain, pool mode).')
 ASSUMPTIONS = ['NumPy integer/slice/mask indexing = key_positions (norm_index, PySlice.positions)',
-               'cells are distinct int64 values, so a result identifies which cell went where']
+               'cells are distinct int64 values, so a result identifies which cell went where',
+               'a Series over an IndexHierarchy (the axis map) rejects repeated positions and owner sequences not in tree form (observed; D14)',
+               'Batch operations: any function container -> result | exception; instantiated by tabulating the real methods']
 EXHAUSTIVE = {'quick': False, 'thorough': False}
 
 
@@ -215,6 +235,21 @@ def classify(spec, sel):
     return None, ps
 
 
+def sample_keys(ctx, n, limit):
+    """A sample of sel_keys_all(n) in which every key kind and both empty / non-empty selections are represented."""
+    groups = {}
+    for k in sel_keys_all(n):
+        ps = key_positions(k, n)
+        groups.setdefault((key_kind(k), 'bad' if ps is None else ('empty' if not ps else 'some')), []).append(k)
+    share = max(1, limit // max(1, sum(1 for g in groups if g[1] == 'some')))
+    out = []
+    for g in sorted(groups):
+        pool = groups[g]
+        take = share if g[1] == 'some' else 1
+        out += pool if len(pool) <= take else ctx.rng.sample(pool, take)
+    return out
+
+
 def sel_keys_all(n):
     '''Every selection key over an axis of length n (small n).'''
     keys = [None]
@@ -240,7 +275,7 @@ def opp_keys(m):
 
 
 SIZES_QUICK = [(2, 2, 1), (3,), (1, 0, 2), (2, 1), (1, 1, 1, 1), (0, 2), (3, 2)]
-SIZES_MORE = [(1,), (2,), (1, 1), (1, 2), (2, 2), (3, 1), (1, 3), (2, 0, 1), (0, 0, 1), (1, 1, 1), (2, 1, 2), (1, 2, 1), (3, 3), (2, 2, 2), (1, 2, 0, 1)]
+SIZES_MORE = [(1,), (2,), (1, 1), (1, 2), (2, 2), (3, 1), (2, 0, 1), (1, 1, 1), (2, 1, 2), (3, 3), (2, 2, 2)]
 
 
 def make_quilt(spec, rng):
@@ -266,7 +301,7 @@ def iloc_cases(ctx):
                 share = retain and (sum(sizes) % 2 == 0)
                 specs.append(make_spec(axis, retain, sizes, n_opp=2 + (len(sizes) % 2), share_labels=share,
                                        int_labels=(len(sizes) == 2)))
-    per_spec = ctx.n(70, 1200)
+    per_spec = ctx.n(48, 700)
     for spec in specs:
         n = spec.n()
         q, frames = make_quilt(spec, ctx.rng)
@@ -314,8 +349,13 @@ def iloc_cases(ctx):
             desc = {'call': 'sf.Quilt.from_items(frames, axis=axis, retain_labels=retain).iloc[row_key, column_key]',
                     'quilt': spec.desc(), 'sel_key(along quilt axis)': key_json(sel), 'opposite_key': key_json(opp),
                     'observed': _jsonable(js)}
+            # the class a known finding is matched by (decided from the input) must be the complement of the
+            # guard of the refinement theorem, as Coq computes it
+            guard = ''
+            if finding or ps is None or len(set(ps)) == len(ps):
+                guard = f' && Bool.eqb (dom_extract_block {qlit} {key_coq(sel)}) {lit.b(finding is None)}'
             yield Case('api:quilt.iloc', desc,
-                       m=f'qm_eqb (M_extract_full {qlit} {key_coq(sel)} {key_coq(opp)}) {out}',
+                       m=f'qm_eqb (M_extract_full {qlit} {key_coq(sel)} {key_coq(opp)}) {out}{guard}',
                        s=f'qs_eqb (S_extract {qlit} {key_coq(sel)} {key_coq(opp)}) {out}',
                        py_fail=py_fail, tags=tags,
                        nontrivial=spans >= 2 or isinstance(sel, int) or isinstance(opp, int),
@@ -633,7 +673,7 @@ def window_cases(ctx):
         q, frames = make_quilt(spec, ctx.rng)
         qlit = spec.coq()
         n = spec.n()
-        params = grid if len(grid) <= ctx.n(18, 200) else ctx.rng.sample(grid, ctx.n(18, 200))
+        params = grid if len(grid) <= ctx.n(18, 150) else ctx.rng.sample(grid, ctx.n(18, 150))
         for j, (size, step, sized, lshift, sshift, sinc) in enumerate(params):
             for along_sel in ((True, False) if j % 4 == 0 else (True,)):
                 as_array = (j % 3 == 1)
@@ -712,8 +752,7 @@ def store_cases(ctx):
                 store.read_many = read_many
                 shape = q.shape            # builds the axis map: walks the whole Bus once
                 last = frames[-1][0]
-                keys = [kk for kk in sel_keys_all(n) if kk is not None]
-                keys = ctx.rng.sample(keys, min(len(keys), ctx.n(10, 60))) + [None]
+                keys = [kk for kk in sample_keys(ctx, n, ctx.n(8, 60)) if kk is not None] + [None]
                 for sel in keys:
                     ps = key_positions(sel, n)
                     finding = classify_ps(spec, ps, sel is None)
@@ -747,6 +786,57 @@ def store_cases(ctx):
                                                    'store_reads': reads, 'observed': _jsonable(js)},
                                m=m, s=f'qs_eqb (S_extract {qlit} {key_coq(sel)} KAll) {out}', py_fail=py_fail, tags=tags,
                                nontrivial=len(addressed) < len(spec.members), key=f'store{spec_key(spec)}{mp}{key_json(sel)}')
+
+
+# ---------------------------------------------------------------------------- Quilt.from_frame: a Frame cut into chunks is that Frame
+def from_frame_cases(ctx):
+    import static_frame as sf
+    for n, n_opp in ((5, 2),) if ctx.tier == 'quick' else ((5, 2), (4, 3), (6, 2), (3, 1)):
+        for axis in (0, 1):
+            for retain in (False, True):
+                for chunk in range(1, n + 2):
+                    sizes = [min(chunk, n - a) for a in range(0, n, chunk)]
+                    spec = make_spec(axis, retain, sizes, n_opp)
+                    # bus label of a chunk = its first label (the default label_extractor), also the chunk's name
+                    members, k = [], 0
+                    for _, ls, lines, _ in spec.members:
+                        members.append((ls[0], ls, lines, ls[0]))
+                    spec.members = members
+                    all_labels = [l for m in members for l in m[1]]
+                    all_lines = [ln for m in members for ln in m[2]]
+                    whole = QSpec(axis, False, [('whole', all_labels, all_lines, 'whole')], spec.opp)
+                    frame = whole.frames(ctx.rng)[0][1].rename('whole')
+                    q = sf.Quilt.from_frame(frame, chunksize=chunk, retain_labels=retain, axis=axis)
+                    qlit = spec.coq()
+                    keys = sample_keys(ctx, n, ctx.n(12, 80))
+                    oks = opp_keys(n_opp)
+                    for i, sel in enumerate(keys):
+                        opp = None if i % 2 else oks[ctx.rng.randrange(len(oks))]
+                        pykey = (key_py(sel), key_py(opp)) if axis == 0 else (key_py(opp), key_py(sel))
+                        out, js, r = observe(lambda: q.iloc[pykey], axis)
+                        finding, ps = classify(spec, sel)
+                        py_fail = None
+                        if finding is None and not retain:
+                            out2, js2, _ = observe(lambda: frame.iloc[pykey], axis)
+                            a, b_ = dict(js), dict(js2)
+                            if a.get('kind') == 'Frame':
+                                a.pop('name', None)
+                            if b_.get('kind') == 'Frame':
+                                b_.pop('name', None)
+                            if _jsonable(a) != _jsonable(b_):
+                                py_fail = f'Quilt.from_frame(frame, chunksize={chunk}).iloc[key] = {_jsonable(a)} but frame.iloc[key] = {_jsonable(b_)}'
+                        tags = {'op': 'from_frame.iloc', 'axis': axis, 'retain': retain, 'sel': key_kind(sel), 'opp': key_kind(opp)}
+                        if finding:
+                            tags['finding'] = finding
+                        ctx.count(f'from_frame:chunks={len(sizes)}')
+                        spans = len({spec.owners()[p_] for p_ in ps}) if ps else 0
+                        yield Case('api:quilt.from_frame', {'call': f'sf.Quilt.from_frame(frame, chunksize={chunk}, retain_labels={retain}, axis={axis}).iloc[row_key, column_key]',
+                                                            'quilt(chunks)': spec.desc(), 'sel_key(along quilt axis)': key_json(sel), 'opposite_key': key_json(opp),
+                                                            'observed': _jsonable(js)},
+                                   m=f'qm_eqb (M_extract_full {qlit} {key_coq(sel)} {key_coq(opp)}) {out}',
+                                   s=f'qs_eqb (S_extract {qlit} {key_coq(sel)} {key_coq(opp)}) {out}',
+                                   py_fail=py_fail, tags=tags, nontrivial=spans >= 2,
+                                   key=f'ff{axis}{retain}{n}{chunk}{key_json(sel)}{key_json(opp)}')
 
 
 # ---------------------------------------------------------------------------- malformed Buses, mixed dtypes (decided on the implementation)
@@ -915,8 +1005,8 @@ def batch_cases(ctx):
     sets = batch_frame_sets()
     chains = [[i] for i in range(len(ops))]
     pairs = [[i, j] for i in range(len(ops)) for j in range(len(ops))]
-    chains += ctx.rng.sample(pairs, ctx.n(60, 900))
-    for _ in range(ctx.n(40, 600)):
+    chains += ctx.rng.sample(pairs, ctx.n(40, 700))
+    for _ in range(ctx.n(30, 500)):
         chains.append([ctx.rng.randrange(len(ops)) for _ in range(3)])
     variants = [dict(), dict(max_workers=2, use_threads=True), dict(max_workers=3, use_threads=True, chunksize=2)]
     set_names = sorted(sets)
@@ -1070,5 +1160,6 @@ def cases(ctx):
     yield from split_model_cases(iter_cases(ctx))
     yield from split_model_cases(window_cases(ctx))
     yield from split_model_cases(store_cases(ctx))
+    yield from split_model_cases(from_frame_cases(ctx))
     yield from malformed_cases(ctx)
     yield from batch_cases(ctx)
